@@ -149,7 +149,21 @@ var procsMu sync.Mutex
 // Setup builds the world of a case without running the copy.
 func Setup(c Case) (*Result, error) {
 	rng := rand.New(rand.NewSource(c.Seed))
+	w := modelreg.NewWorld()
+	var ext *modelreg.Host
+	if c.Shape.Foreign {
+		// the URLs of foreign layers point at a host that really serves them (a probe of the URL succeeds)
+		ext = w.NewHost("ext")
+		c.Shape.ForeignURL = ext.Srv.URL + "/v2/ext/blobs"
+	}
 	g := gen.Random(rng, c.Alg, c.Shape, "v1")
+	if ext != nil {
+		for _, n := range g.Nodes {
+			if len(n.URLs) > 0 {
+				ext.PutBlob("ext", c.Alg, n.Content)
+			}
+		}
+	}
 	if c.Opt == "external" {
 		for _, n := range g.Nodes {
 			if len(n.URLs) > 0 {
@@ -158,7 +172,6 @@ func Setup(c Case) (*Result, error) {
 		}
 	}
 	r := &Result{Case: c, G: g, SrcTag: "v1", TgtTag: "v1", PreHas: map[string]bool{}, PreTags: map[string]string{}}
-	w := modelreg.NewWorld()
 	r.W = w
 	tmp := func(name string) string {
 		base := os.Getenv("VERIF_BIN")
